@@ -139,6 +139,63 @@ def decode_length_summary(ctx: Ctx, rep: Report) -> Optional[List[Tuple[Val, Val
     return results
 
 
+def check_secparams_typed(ctx: Ctx, rep: Report, rule: str = "C20-R11") -> None:
+    """
+    `USMSecurityParameters.from_snmp_type` evaluated on sequences in which one member has the wrong ASN.1 type, or a
+    member is missing / surplus: each must be refused with an SnmpError; the well-typed sequence yields the six
+    python values in RFC 3414 order.  What this protects: the values are cached (`DiscoData`, the timing cache) and
+    used for every later request - an OCTET STRING in the place of msgAuthoritativeEngineBoots used to be accepted,
+    cached, and made every following request of that client fail with a TypeError without sending anything.
+    """
+    from ..engine.minieval import Instance, MiniEval, Raised, Sym, Unevaluable
+
+    cls = ctx.u.cls("puresnmp_plugins.security.usm:USMSecurityParameters")
+    fn = cls.methods.get("from_snmp_type")
+    if fn is None:
+        rep.undecided(rule, f"{cls.module.path} (USMSecurityParameters)", "from_snmp_type exists", "missing")
+        return
+    snmp_error = ctx.u.cls("puresnmp.exc:SnmpError")
+    seq_cls, int_cls, oct_cls = ctx.u.cls("x690.types:Sequence"), ctx.u.cls("x690.types:Integer"), ctx.u.cls("x690.types:OctetString")
+    layout = [oct_cls, int_cls, int_cls, oct_cls, oct_cls, oct_cls]
+    names = ["msgAuthoritativeEngineID", "msgAuthoritativeEngineBoots", "msgAuthoritativeEngineTime", "msgUserName", "msgAuthenticationParameters", "msgPrivacyParameters"]
+
+    def member(kls, k: int) -> Instance:
+        inst = Instance(kls, [], {})
+        py = (1000 + k) if kls is int_cls else bytes([65 + k]) * 3
+        inst.attrs.update(value=py, pyvalue=py)
+        return inst
+
+    def sequence(items: List[Instance]) -> Instance:
+        seq = Instance(seq_cls, [], {})
+        seq.attrs["__items__"] = items
+        seq.attrs["value"] = items
+        return seq
+
+    cases = [("well typed", [member(k_, i) for i, k_ in enumerate(layout)], None)]
+    for pos in range(6):
+        items = [member(k_, i) for i, k_ in enumerate(layout)]
+        items[pos] = member(int_cls if layout[pos] is oct_cls else oct_cls, pos)
+        cases.append((f"{names[pos]} is an {'INTEGER' if layout[pos] is oct_cls else 'OCTET STRING'}", items, pos))
+    cases.append(("only five members", [member(k_, i) for i, k_ in enumerate(layout)][:5], -1))
+    cases.append(("seven members", [member(k_, i) for i, k_ in enumerate(layout)] + [member(oct_cls, 6)], -1))
+    for label, items, bad in cases:
+        text = f"USM security parameters, {label}: " + ("decoded into the six fields in RFC 3414 order" if bad is None else "refused with SnmpError")
+        try:
+            got = MiniEval(ctx, max_steps=20000).call_function(fn, [sequence(items)], {})
+            kind = "return"
+        except Raised as exc:
+            kind, got = "raise", exc.value
+        except Unevaluable as exc:
+            rep.undecided(rule, fn.site(), text, f"not evaluable: {exc}")
+            continue
+        if bad is None:
+            fields = ["authoritative_engine_id", "authoritative_engine_boots", "authoritative_engine_time", "user_name", "auth_params", "priv_params"]
+            ok = kind == "return" and isinstance(got, Instance) and [got.attrs.get(f, got.kwargs.get(f)) for f in fields] == [it.attrs["value"] for it in items]
+        else:
+            ok = kind == "raise" and isinstance(got, Instance) and ctx.r.is_subclass(got.cls, snmp_error)
+        rep.check(ok, rule, fn.site(), text, f"{kind}: {got!r}"[:200], key=f"{fn.key}|untyped-secparams|{label}")
+
+
 def run(ctx: Ctx, rep: Report) -> None:
     rep.rule("C20-R1", "every while loop reachable while processing a datagram makes progress (cursor advance / strictly decreasing measure / finite iterator)", floor=7)
     rep.rule("C20-R2", "no decoded integer reaches range(), a repetition count or an allocation size unchecked", floor=1)
@@ -146,6 +203,8 @@ def run(ctx: Ctx, rep: Report) -> None:
     rep.rule("C20-R4", "no eager recursion on the decode path", floor=1)
     rep.rule("C20-R5", "a lazily decoded SEQUENCE is walked once: no indexing / len() / .value of it inside a loop (each access re-decodes the whole value: quadratic time in the datagram size)", floor=1)
     rep.rule("C20-R8", "no datagram is rendered recursively (pretty / repr of the decoded tree) unless debug logging asks for it", floor=1)
+    rep.rule("C20-R11", "decoded USM security parameters are refused unless every member has its ASN.1 type (a wrongly typed engine-boots / time must not reach the discovery cache, where it would break every later request)", floor=4)
+    rep.rule("C20-R10", "whatever datagram arrives (also an empty one), the socket of the exchange is closed on every path (shared with C13-R1)", floor=2)
     rep.rule("C20-R9", "no response keeps a walk asking for the same OIDs for ever: every fetcher refuses a response that does not advance, the continuation list is renewed each round (shared with C03-R1/R2/R3/R5)", floor=2)
     rep.rule("C20-R7", "no reply makes the UDP sender spin: the retry loop returns at the first reply and otherwise uses up one retry per iteration (shared with C13-R2)", floor=7)
     rep.rule("C20-R6", "a failed exchange leaves no per-datagram state behind: every store to shared state in the package is a justified, operation-independent instance (shared with C14-R1)", floor=10)
@@ -337,8 +396,11 @@ def run(ctx: Ctx, rep: Report) -> None:
     rep.adopt_rules(sub, "C20-R6", ["C14-R1"])
     # the sender's retry loop: whatever the peer replies (an empty datagram included), every iteration either
     # returns or consumes one of the `retries`
+    check_secparams_typed(ctx, rep)
     sub = ctx.sub_run("c13", rep)
     rep.adopt_rules(sub, "C20-R7", ["C13-R2"])
+    # no reply, however short or malformed, leaves a socket behind (descriptors are a bounded resource too)
+    rep.adopt_rules(sub, "C20-R10", ["C13-R1"])
     # a response that does not advance cannot keep a walk requesting the same OIDs forever (the client hanging on a
     # replayed / misbehaving datagram): the progress guard of every fetcher and the renewal of the continuation list
     sub = ctx.sub_run("c03", rep)
